@@ -63,4 +63,4 @@ impl CoroutinePool {
 
 #[cfg(kani)]
 #[path = "/verif/harness/may/pool.rs"]
-mod verif_kani;
+pub(crate) mod verif_kani;
